@@ -258,6 +258,19 @@ def resolver_contracts(it, loc):
         canary=True)
 
 
+def table_lookup(sec, esz, val, var, tags, plus_base=False):
+    """indexed table lookup: the result is the entry read at base + index * entry_size (mathematical product) of `sec`"""
+    t = ''.join(f'[{x}]' for x in tags)
+    v = f'base.0 as nat + tab_at({sec}, base.0 as nat, index.0 as nat, {esz})' if plus_base else f'tab_at({sec}, base.0 as nat, index.0 as nat, {esz})'
+    return [f'{t} res matches Ok({var}) ==> tab_in({sec}, base.0 as nat, index.0 as nat, {esz}) && {val} == {v}']
+
+
+def closure_spec(it, open_anchor, body, rty, ens):
+    """give the closure `|x| <body>` a postcondition (inserted text only: `-> (o: T) ensures .. {` and `}`)"""
+    it.insert_after(open_anchor, f'-> (o: {rty}) ensures {ens} {{ ')
+    it.insert_after(open_anchor + INS_O + f'-> (o: {rty}) ensures {ens} {{ ' + INS_C + body, ' }')
+
+
 ONES_BV = ('proof { assert(!0u64 >> 56u64 == 0xff) by (bit_vector); assert(!0u64 >> 48u64 == 0xffff) by (bit_vector); '
            'assert(!0u64 >> 32u64 == 0xffff_ffff) by (bit_vector); assert(!0u64 >> 0u64 == 0xffff_ffff_ffff_ffff) by (bit_vector); }')
 
@@ -283,10 +296,48 @@ def populate(ctx, sk):
     sk.module('read::op', 'use crate::read::Reader;')
     sk.add('read::op', op.item(r'^pub struct Expression<').clean(rejrec=['R']))
 
+
+    # ---- read::addr  (address table: DW_FORM_addrx, DW_RLE_*x, DW_LLE_*x, DW_OP_addrx)
+    adr = Source('read/addr.rs', ctx)
+    sk.mods['read']['uses'] += '\npub use self::addr::*;\npub use self::str::*;'
+    sk.module('read::addr', """use crate::common::{DebugAddrBase, DebugAddrIndex, DebugAddrOffset, Encoding};
+use crate::read::{Error, Reader, ReaderOffset, Result};
+use crate::read::reader_clone;
+use crate::vspec::*;""")
+    A = 'read::addr'
+    sk.add(A, adr.item(r'^pub struct DebugAddr<').clean())
+    dai = adr.item(r'^impl<R: Reader> DebugAddr<R>', label='DebugAddr')
+    dai.keep_only(['get_address'])
+    dai.custom('R-CLONE', 'self.section.clone()', 'reader_clone(&self.section)')
+    dai.clean()
+    dai.own(['C01', 'C08', 'C17'])
+    dai.insert_members('    /// the .debug_addr section\n    pub closed spec fn sec(&self) -> RView { self.section.rv() }')
+    dai.splice('get_address', ret='res', ensures=table_lookup('self.sec()', 'address_size as nat', 'a as nat', 'a', ['C08:indexed-address', 'C17:indexed-address'])
+               + ['[C08:indexed-address-size] !valid_address_size(address_size) ==> res is Err'])
+    sk.add(A, dai)
+
+    # ---- read::str  (string offsets table: DW_FORM_strx)
+    st = Source('read/str.rs', ctx)
+    sk.module('read::str', """use crate::common::{DebugStrOffset, DebugStrOffsetsBase, DebugStrOffsetsIndex, DwarfFileType, Encoding, Format};
+use crate::read::{Error, Reader, ReaderOffset, Result};
+use crate::read::reader_clone;
+use crate::vspec::*;""")
+    sk.add('read::str', st.item(r'^pub struct DebugStrOffsets<').clean())
+    dso = st.item(r'^impl<R: Reader> DebugStrOffsets<R>', label='DebugStrOffsets')
+    dso.custom('R-CLONE', 'self.section.clone()', 'reader_clone(&self.section)')
+    # R-CTORFN: Verus has no tuple-struct constructors as function values; `.map(DebugStrOffset)` is eta-expanded
+    dso.custom('R-CTORFN', '.map(DebugStrOffset)', '.map(|x| DebugStrOffset(x))')
+    dso.clean()
+    dso.own(['C01', 'C17'])
+    dso.insert_members('    /// the .debug_str_offsets section\n    pub closed spec fn sec(&self) -> RView { self.section.rv() }')
+    closure_spec(dso, '.map(|x| ', 'DebugStrOffset(x)', 'DebugStrOffset<usize>', 'o.0 == x')
+    dso.splice('get_str_offset', ret='res', ensures=table_lookup('self.sec()', 'word_size(format)', 'o.0 as nat', 'o', ['C17:str-offset-lookup']))
+    sk.add('read::str', dso)
+
     # ---- read::rnglists
     sk.module('read::rnglists', '''use crate::common::{DebugAddrBase, DebugAddrIndex, DebugRngListsBase, DebugRngListsIndex, DwarfFileType, Encoding, RangeListsOffset};
 use crate::constants;
-use crate::read::{Error, Reader, ReaderAddress, ReaderOffset, Result};
+use crate::read::{DebugAddr, Error, Reader, ReaderAddress, ReaderOffset, Result};
 use crate::read::reader_clone;
 use crate::vspec::*;''')
     M = 'read::rnglists'
@@ -321,10 +372,38 @@ use crate::vspec::*;''')
     rit.splice('next', ret='res', ensures=next_raw_clauses(False))
     sk.add(M, rit)
 
+    rgi = rng.item(r'^impl Range \{', label='Range').clean()
+    rgi.splice('add_base_address', requires=['valid_address_size(address_size)'], ensures=[
+        '[C08:add-base] final(self).begin == wrap_add(base_address, old(self).begin, address_size) && final(self).end == wrap_add(base_address, old(self).end, address_size)'],
+        owners=['C01', 'C08'], canary=True)
+    sk.add(M, rgi)
+    sk.add(M, rng.item(r'^pub struct RngListIter<').clean(rejrec=['R']))
+    sk.add(M, resolve_spec(False), label='rng_resolve')
+    rli = rng.item(r'^impl<R: Reader> RngListIter<R>', label='RngListIter').clean()
+    rli.own(['C01', 'C08'])
+    resolver_contracts(rli, False)
+    sk.add(M, rli)
+    for h in [r'^pub struct DebugRanges<', r'^pub struct DebugRngLists<', r'^pub struct RangeLists<']:
+        sk.add(M, rng.item(h).clean())
+    rls = rng.item(r'^impl<R: Reader> RangeLists<R>', label='RangeLists')
+    rls.keep_only(['raw_ranges', 'get_offset'])
+    rls.custom('R-CLONE', 'self.debug_ranges.section.clone()', 'reader_clone(&self.debug_ranges.section)')
+    rls.custom('R-CLONE', 'self.debug_rnglists.section.clone()', 'reader_clone(&self.debug_rnglists.section)', count=2)
+    rls.clean()
+    rls.own(['C01', 'C08'])
+    rls.insert_members('    /// the .debug_ranges / .debug_rnglists sections\n    pub closed spec fn ranges_sec(&self) -> RView { self.debug_ranges.section.rv() }\n'
+                       '    pub closed spec fn rnglists_sec(&self) -> RView { self.debug_rnglists.section.rv() }')
+    closure_spec(rls, '.map(|x| ', 'RangeListsOffset(base.0 + x)', 'RangeListsOffset<usize>', 'o.0 == base.0 + x')
+    rls.splice('raw_ranges', ret='res', ensures=[
+        '[C08:list-select] res matches Ok(it) ==> it.enc() == unit_encoding && it.coded() == (unit_encoding.version >= 5) && '
+        'adv(if unit_encoding.version >= 5 { self.rnglists_sec() } else { self.ranges_sec() }, it.inp(), offset.0 as nat)'])
+    rls.splice('get_offset', ret='res', ensures=table_lookup('self.rnglists_sec()', 'word_size(unit_encoding.format)', 'o.0 as nat', 'o', ['C08:offset-table'], plus_base=True))
+    sk.add(M, rls)
+
     # ---- read::loclists
     sk.module('read::loclists', '''use crate::common::{DebugAddrBase, DebugAddrIndex, DebugLocListsBase, DebugLocListsIndex, DwarfFileType, Encoding, LocationListsOffset};
 use crate::constants;
-use crate::read::{Error, Expression, Range, RawRange, Reader, ReaderAddress, ReaderOffset, Result};
+use crate::read::{DebugAddr, Error, Expression, Range, RawRange, Reader, ReaderAddress, ReaderOffset, Result};
 use crate::read::reader_clone;
 use crate::vspec::*;''')
     L = 'read::loclists'
@@ -349,6 +428,32 @@ use crate::vspec::*;''')
     lit.splice('new', ret='res', ensures=['res.inp() == input.rv() && res.enc() == encoding && res.coded() == (format matches LocListsFormat::Lle)'])
     lit.splice('next', ret='res', ensures=next_raw_clauses(True))
     sk.add(L, lit)
+
+    sk.add(L, loc.item(r'^pub struct LocationListEntry<').clean(rejrec=['R']))
+    sk.add(L, loc.item(r'^pub struct LocListIter<').clean(rejrec=['R']))
+    sk.add(L, resolve_spec(True), label='loc_resolve')
+    lli = loc.item(r'^impl<R: Reader> LocListIter<R>', label='LocListIter').clean()
+    lli.own(['C01', 'C08'])
+    resolver_contracts(lli, True)
+    sk.add(L, lli)
+    for h in [r'^pub struct DebugLoc<', r'^pub struct DebugLocLists<', r'^pub struct LocationLists<']:
+        sk.add(L, loc.item(h).clean())
+    lls = loc.item(r'^impl<R: Reader> LocationLists<R>', label='LocationLists')
+    lls.keep_only(['raw_locations', 'raw_locations_dwo', 'get_offset'])
+    lls.custom('R-CLONE', 'self.debug_loc.section.clone()', 'reader_clone(&self.debug_loc.section)', count=2)
+    lls.custom('R-CLONE', 'self.debug_loclists.section.clone()', 'reader_clone(&self.debug_loclists.section)', count=3)
+    lls.clean()
+    lls.own(['C01', 'C08'])
+    lls.insert_members('    /// the .debug_loc / .debug_loclists sections\n    pub closed spec fn loc_sec(&self) -> RView { self.debug_loc.section.rv() }\n'
+                       '    pub closed spec fn loclists_sec(&self) -> RView { self.debug_loclists.section.rv() }')
+    closure_spec(lls, '.map(|x| ', 'LocationListsOffset(base.0 + x)', 'LocationListsOffset<usize>', 'o.0 == base.0 + x')
+    SEL = 'adv(if unit_encoding.version >= 5 { self.loclists_sec() } else { self.loc_sec() }, it.inp(), offset.0 as nat)'
+    lls.splice('raw_locations', ret='res', ensures=[
+        f'[C08:list-select] res matches Ok(it) ==> it.enc() == unit_encoding && it.coded() == (unit_encoding.version >= 5) && {SEL}'])
+    lls.splice('raw_locations_dwo', ret='res', ensures=[
+        f'[C08:list-select-dwo] res matches Ok(it) ==> it.enc() == unit_encoding && it.coded() && {SEL}'])
+    lls.splice('get_offset', ret='res', ensures=table_lookup('self.loclists_sec()', 'word_size(unit_encoding.format)', 'o.0 as nat', 'o', ['C08:offset-table'], plus_base=True))
+    sk.add(L, lls)
     return sk
 
 
